@@ -76,7 +76,13 @@ def validate_batch(traces, texts, module='TraceHistory', cfg='TraceHistory.cfg',
             json.dump(traces, f, separators=(',', ':'))
         with open(tf, 'w') as f:
             json.dump(texts if texts else [[48]], f, separators=(',', ':'))
-        rc, out, wall = run_tlc(module + '.tla', cfg, env={'VERIF_BATCH': bf, 'VERIF_TEXTS': tf}, timeout=timeout)
+        # run on a private snapshot of the specification so that concurrent edits of spec/ cannot break a running check
+        snap = os.path.join(d, 'spec')
+        os.makedirs(snap, exist_ok=True)
+        for fn in os.listdir(SPEC):
+            if fn.endswith('.tla') or fn.endswith('.cfg'):
+                shutil.copy(os.path.join(SPEC, fn), os.path.join(snap, fn))
+        rc, out, wall = run_tlc(module + '.tla', cfg, env={'VERIF_BATCH': bf, 'VERIF_TEXTS': tf}, timeout=timeout, cwd=snap)
         if 'Model checking completed. No error has been found.' not in out:
             lines = out.splitlines()
             first = next((i for i, l in enumerate(lines) if l.startswith('Error:')), max(0, len(lines) - 40))
